@@ -302,12 +302,20 @@ class Builder:
             return Integrate(m, f, vs)
         if c == "Delta":
             from funsor.delta import Delta
-            terms = tuple((n, (self.build(p), self.build(ld))) for n, p, ld in t["terms"])
+            def point(p):
+                if p["c"] == "Num" and self.delta_point_as_tensor:
+                    v = vals.scalar_to_float(p["v"])
+                    if p["dt"] == 0:
+                        return Tensor(np.array(float(v)))
+                    return Tensor(np.array(int(v)), OrderedDict(), p["dt"])
+                return self.build(p)
+            terms = tuple((n, (point(p), self.build(ld))) for n, p, ld in t["terms"])
             return Delta(terms)
         raise NotImplementedError(c)
 
     rename_as_str = False
     real_num_as_tensor = False
+    delta_point_as_tensor = False  # a Number point raises NotImplementedError in Delta.eager_subs (astype of a python bool)
     index_style = "plain"         # how a basic index is spelled: plain | ellipsis
 
     def index_variant(self, idx, rank):
